@@ -6,6 +6,7 @@ import (
 	"encoding/json"
 	"fmt"
 	"strconv"
+	"sync"
 
 	"github.com/lidofinance/dc4bc/fsm/types/requests"
 	"github.com/lidofinance/dc4bc/pkg/wc_rotation"
@@ -28,7 +29,7 @@ func safeBaked(p int) (m requests.MessageToSign, err error, panicked interface{}
 }
 
 func checkC17(c *Ctx) {
-	c.Rule = "exhaustive: every position 0..len-1 of the pinned published list through requests.ReconstructBakedMessage, compared with an independent SSZ implementation and an independent reader of the pinned list; plus seeded random/boundary uint64 indices through wc_rotation.GetSigningRoot; plus out-of-range positions. distinct = distinct (position|index|out-of-range position) cases judged"
+	c.Rule = "exhaustive: every position 0..len-1 of the pinned published list through requests.ReconstructBakedMessage, compared with an independent SSZ implementation and an independent reader of the pinned list; plus seeded random/boundary uint64 indices through wc_rotation.GetSigningRoot; plus out-of-range positions. The same lookups in descending / random / repeated order, and in fresh worker processes whose first act is a window not starting at 0 or 24 concurrent first lookups (48 fresh processes in quick, 200 in thorough). distinct = distinct (position|index|out-of-range position) cases judged"
 	c.Assumptions = []string{"the pinned copy of payloads.csv in /verif (sha256 4e78d9c7...) is the published list", "SHA-256 of the Go standard library"}
 	lines := oracle.RefLines()
 
@@ -115,10 +116,20 @@ func checkC17(c *Ctx) {
 	// (2c) ... nor on being the first lookup of a process: fresh worker processes whose first baked lookup
 	// is a window that does not start at position 0 (a node or machine started for `sign_baked 100 500`)
 	saved := c.Seed
-	for k := 0; k < c.Pick(5, 20); k++ {
+	for k := 0; k < c.Pick(48, 200); k++ {
 		c.Seed = saved*100 + uint64(k)
 		c.RunPartInChild("c17first", "C17/first-lookup-of-a-process-crashes")
 	}
+	// the same bursts under the Go race detector (race build of the harness): an unsynchronised lazily built
+	// constant is reported whether or not a reader happened to see it half built
+	raced := 0
+	for k := 0; k < c.Pick(6, 24); k++ {
+		c.Seed = saved*100 + uint64(4*k+1)
+		if c.RunPartInRaceChild("c17first", "C17/data-race-among-concurrent-first-lookups") {
+			raced++
+		}
+	}
+	c.Add("fresh_processes_under_the_race_detector", raced)
 	c.Seed = saved
 
 	// (3) random + boundary indices straight through GetSigningRoot
@@ -357,6 +368,53 @@ func init() {
 			if m.MessageID != lines[p] || hex.EncodeToString(m.Payload) != hex.EncodeToString(ref[:]) {
 				c.Violate("C17/position-depends-on-lookup-history", fmt.Sprintf("position %d looked up %s: id=%q, want id=%q (validator index %d)", p, how, m.MessageID, lines[p], idx), map[string]interface{}{"position": p, "order": how, "first_window_starts_at": start})
 			}
+		}
+		if k%4 != 0 {
+			// three of four fresh processes: the first lookups of the process happen at once (a node receives a
+			// proposal while its API expands another; every reader must get the spec's root)
+			progress(fmt.Sprintf("24 concurrent first lookups around position %d", start))
+			const G = 24
+			type res struct {
+				p   int
+				m   requests.MessageToSign
+				err error
+				idx uint64
+				got [32]byte
+			}
+			out := make([]res, G)
+			gate := make(chan struct{})
+			var wg sync.WaitGroup
+			for g := 0; g < G; g++ {
+				wg.Add(1)
+				go func(g int) {
+					defer wg.Done()
+					<-gate
+					if g%2 == 0 {
+						p := (start + g) % len(lines)
+						m, err := requests.ReconstructBakedMessage(p)
+						out[g] = res{p: p, m: m, err: err}
+					} else {
+						idx := uint64(1000003*g + start)
+						got, err := wc_rotation.GetSigningRoot(idx)
+						out[g] = res{p: -1, idx: idx, got: got, err: err}
+					}
+				}(g)
+			}
+			close(gate)
+			wg.Wait()
+			for _, o := range out {
+				c.Eval(1)
+				if o.err != nil {
+					c.Violate("C17/in-range-position-refused", fmt.Sprintf("concurrent first lookup: %v", o.err), nil)
+					continue
+				}
+				if o.p >= 0 {
+					check(o.p, o.m, "among 24 concurrent first lookups of a fresh process")
+				} else if ref := oracle.RefSigningRoot(o.idx); o.got != ref {
+					c.Violate("C17/signing-root-differs-from-spec", fmt.Sprintf("index %d among 24 concurrent first lookups of a fresh process: got %x want %x", o.idx, o.got, ref), map[string]interface{}{"index": o.idx})
+				}
+			}
+			c.Add("fresh_processes_with_concurrent_first_lookups", 1)
 		}
 		progress(fmt.Sprintf("first lookup of the process: window %d..%d", start, start+3))
 		msgs, err := requests.TasksToMessages([]requests.SigningTask{{MessageID: "first", RangeStart: start, RangeEnd: start + 3}})
